@@ -28,7 +28,11 @@ func Diff(a, b reflect.Value, path string) string {
 		return ""
 	}
 	switch a.Kind() {
-	case reflect.Float32, reflect.Float64:
+	case reflect.Float32:
+		if x, y := F32Bits(a), F32Bits(b); x != y {
+			return fmt.Sprintf("%s: float32 %v (bits %08x) vs %v (bits %08x)", path, a.Float(), x, b.Float(), y)
+		}
+	case reflect.Float64:
 		if math.Float64bits(a.Float()) != math.Float64bits(b.Float()) {
 			return fmt.Sprintf("%s: float %v (%x) vs %v (%x)", path, a.Float(), math.Float64bits(a.Float()), b.Float(), math.Float64bits(b.Float()))
 		}
